@@ -79,6 +79,11 @@ where
         Self::new(operation, log_id, topic, prune_flag)
     }
 
+    /// Turn the "log prune" step into a no-op for this event.
+    pub(crate) fn skip_log_prune(&mut self) {
+        self.log_prune_args = LogPruneArgs::Ignore;
+    }
+
     /// System-level data (append-only log, pruning coordination, etc.) of this operation.
     pub fn header(&self) -> &Header<E> {
         &self.operation.header
